@@ -98,6 +98,14 @@ def r1(ctx):
     s2 = _runner(ctx, ctx.find(path="barter::engine::run::async_run_with_audit::{closure#0}"), "async_run_with_audit")
     ctx.check("sync_run_with_audit~async_run_with_audit", s1 is not None and s1 == s2,
               "both runners perform the same sequence of audit-relevant calls", got=(s1, s2), key="siblings")
+    cd = ctx.fbody(name="send", self_adt="barter_integration::channel::ChannelTxDroppable", trait="")
+    snd = [(bi, t, tm) for bi, t, tm in cd.real_calls() if tm[1].endswith("Tx::send")]
+    ok = len(snd) == 1 and render(snd[0][2][2][1]) == "item" and render(snd[0][2][2][0]) == "self.state.as:Active.0"
+    if ok:
+        g = cd.guard(snd[0][0])
+        ok = len(g) == 1 and [mir.render_atom(a) for a in next(iter(g))] == ["self.state is Active"]
+    ctx.check("ChannelTxDroppable::send", ok, "while the audit channel is active every record handed to it is forwarded, unmodified, once",
+              got=[(render(x[2]), render_guard(cd.guard(x[0]))) for x in snd], key="forwards")
     b = ctx.body(ctx.find(path="barter::engine::process_with_audit"))
     rt = b.return_term()
     ok = render(rt) == "Auditor::audit(engine, Processor::process(engine, event))"
